@@ -5,6 +5,7 @@ import (
 	"context"
 	"encoding/base64"
 	"fmt"
+	"math"
 	"sort"
 	"strings"
 
@@ -287,6 +288,8 @@ var dataSets = [][]PItem{
 	{{10, "apple", 3, "c", ""}, {20, "grape", 1, "a", ""}, {30, "Apple pie", 3, "a", ""}, {40, "fig", 2, "c", ""}},
 	{{4, "app", 1, "m", ""}, {8, "bap", 1, "m", ""}, {15, "cap", 1, "m", ""}, {16, "dap", 1, "m", ""}, {23, "eel", 1, "m", ""}},
 	{{9, "zapp", 5, "e", ""}, {7, "yapp", 4, "d", ""}, {5, "x", 3, "c", ""}, {3, "wapp", 2, "b", ""}, {1, "v", 1, "a", ""}},
+	// sort values at the ends of the int64 range (differences that overflow)
+	{{1, "app", math.MaxInt64, "a", ""}, {2, "bapp", math.MinInt64, "b", ""}, {3, "capp", 1 << 62, "c", ""}, {4, "dapp", -(1 << 62), "d", ""}, {5, "app", 0, "e", ""}, {6, "fapp", -1, "f", ""}},
 }
 
 // a longer list with many sort ties: Go's sort.Slice is only accidentally stable below 12 elements
